@@ -4,7 +4,7 @@
     leaves un-emitted operations applied for the rest of the cycle, which only
     withholds capacity), but every successful call must still be admissible and
     the monitor must hold. *)
-From KaiV Require Export Run.Cycle.
+From KaiV Require Export Run.Cycle Run.Decision.
 
 (** How the snapshot classifies a pod (pod_info.getTaskStatus) and whether
     NodeInfo.AddTasksToNode accounts it on the node it names. *)
@@ -26,7 +26,10 @@ Definition occupies (ph : phase) (on_node has_br : bool) : bool :=
 Record scase := mkSC { sc_phase : phase; sc_del : bool; sc_node : bool; sc_br : bool; sc_gated : bool;
                        sc_status : status; sc_accounted : bool }.
 
-Inductive c01case := FCycle (k : ccase) | FFault (k : ccase) | FStatus (c : scase).
+(** [FDecision]: a GPU-group choice of the real GetNodePreferableGpuForSharing (Run/Decision.v): a choice
+    that is not marked as releasing leads to a Bind, so it must not stand on devices or device memory
+    that terminating pods still hold. *)
+Inductive c01case := FCycle (k : ccase) | FFault (k : ccase) | FStatus (c : scase) | FDecision (d : dcase).
 
 Definition guards_ok (k : ccase) : bool :=
   match replay (c_tasks k) (c_nodes k) (c_calls k) with
@@ -44,12 +47,14 @@ Definition model_agrees (c : c01case) : bool :=
   | FFault k => true
   | FStatus c => status_eqb (task_status (sc_phase c) (sc_del c) (sc_node c) (sc_br c) (sc_gated c)) (sc_status c)
                  && Bool.eqb (sc_accounted c) ((sc_node c || sc_br c) && active_used (sc_status c))
+  | FDecision d => decision_agrees d
   end.
 Definition monitor_ok (c : c01case) : bool :=
   match c with
   | FCycle k => c01_ok k
   | FFault k => c01_ok k
   | FStatus c => negb (occupies (sc_phase c) (sc_node c) (sc_br c)) || sc_accounted c
+  | FDecision d => decision_monitor d
   end.
 Definition run_mismatches (cs : list (nat * c01case)) : list nat := failing (fun k => negb (model_agrees k)) cs.
 Definition run_monitor (cs : list (nat * c01case)) : list nat := failing (fun k => negb (monitor_ok k)) cs.
